@@ -440,7 +440,7 @@ package tcell
 
 //@ lockclass tScreen
 //@   guarded h w fini cells buffering buf curstyle style cx cy clear cursorx cursory colors fallback
-//@   guarded escaped buttondn running mouseFlags pasteEnabled focusEnabled cursorStyle cursorColor title saved stopQ
+//@   guarded escaped buttondn running mouseFlags pasteEnabled focusEnabled cursorStyle cursorColor cursorStyleSet cursorColorSet title saved stopQ
 //@   initonly ti tty mouse keyexist keycodes keychan acs charset encoder decoder palette truecolor quit eventQ resizeQ
 //@   initonly enablePaste disablePaste enterUrl exitUrl setWinSize enableFocus disableFocus doubleUnder curlyUnder
 //@   initonly dottedUnder dashedUnder underColor underRGB underFg cursorStyles cursorRGB cursorFg
@@ -930,3 +930,55 @@ package tcell
 //@     invariant [widths] forall k int :: 0 <= k && k < len(t.cells.cells) ==> t.cells.cells[k].width >= 0
 //@     decreases t.w - x
 //@   modifies t.cells.cells[*], t.cx, t.cy, t.curstyle, t.colors, t.buf, t.buffering, t.clear
+
+// ---------------------------------------------------------------------------
+// C04: the setters record what the application asked for (so that Resume re-applies exactly that)
+// ---------------------------------------------------------------------------
+
+//@ func (*tScreen).EnablePaste
+//@   arith math
+//@   ensures [recorded] t.pasteEnabled
+//@   modifies t.pasteEnabled, t.buf, t.Mutex
+
+//@ func (*tScreen).DisablePaste
+//@   arith math
+//@   ensures [recorded] !t.pasteEnabled
+//@   modifies t.pasteEnabled, t.buf, t.Mutex
+
+//@ func (*tScreen).EnableFocus
+//@   arith math
+//@   ensures [recorded] t.focusEnabled
+//@   modifies t.focusEnabled, t.buf, t.Mutex
+
+//@ func (*tScreen).DisableFocus
+//@   arith math
+//@   ensures [recorded] !t.focusEnabled
+//@   modifies t.focusEnabled, t.buf, t.Mutex
+
+//@ func (*tScreen).DisableMouse
+//@   arith math
+//@   ensures [recorded] t.mouseFlags == 0
+//@   modifies t.mouseFlags, t.buf, t.Mutex
+
+//@ func (*tScreen).enableMouse
+//@   arith math
+//@   modifies t.buf
+
+//@ func (*tScreen).enablePasting
+//@   arith math
+//@   modifies t.buf
+
+//@ func (*tScreen).enableFocusReporting
+//@   arith math
+//@   modifies t.buf
+
+// engage (Init and Resume): when it succeeds it has switched on again exactly the modes the application had
+// enabled - mouse tracking with the recorded flags, bracketed paste iff recorded, focus reporting iff recorded.
+//@ func (*tScreen).engage
+//@   arith math
+//@   requires t.ti != nil && cbwf(&t.cells) && !isNil(ErrNoScreen)
+//@   calls [mouse] call(enableMouse, recv, f, ret) ==> f == t.mouseFlags
+//@   calls [paste] call(enablePasting, recv, on, ret) ==> on == t.pasteEnabled
+//@   ensures [reapplied] isNil(result) ==> calls(enableMouse) == 1 && calls(enablePasting) == 1 && calls(enableFocusReporting) == (t.focusEnabled ? 1 : 0)
+//@   ensures [not-started] !isNil(result) ==> calls(enableMouse) == 0 && calls(enablePasting) == 0 && calls(enableFocusReporting) == 0
+//@   modifies t.running, t.stopQ, t.cells.w, t.cells.h, t.cells.cells, t.buf, t.wg, t.Mutex
